@@ -341,6 +341,11 @@ def lockTrace (H : Hashes) (m : SegMap V) (k : Nat) (v : V) (cap : Int) : List N
 /-- all entries (ForEach order: segment by segment). -/
 def toList (m : SegMap V) : List (Nat × V) := m.segs.toList.flatMap UMap.toList
 
+/-- `ForEach` while writers work: segment `i` is read (under its read lock, in
+`UMap.toList` order) from `ms i`, the table as it is at that moment. -/
+def sweep (n : Nat) (ms : Nat → SegMap V) : List (Nat × V) :=
+  (List.range n).flatMap fun i => ((ms i).segAt i).toList
+
 /-- number of entries actually reachable by iteration. -/
 def reachable (m : SegMap V) : Nat := m.toList.length
 
@@ -398,23 +403,55 @@ def compareAndDelete (H : Hashes) (c : Cache V) (k : Nat) (old : V) : Cache V ×
 
 end Cache
 
-/-- `ratelimit.LimiterStore`: a Go map under one RWMutex; the model keeps the
-key list.  `victim` is the key `evictOne` picked (map iteration order leaves
-it free); it is chosen BEFORE the new key is stored. -/
+/-- `ratelimit.LimiterStore`: a Go map `key → (limiter, lastSeen)` under one
+RWMutex.  The model keeps `(key, lastSeen)` pairs (the list order carries no
+meaning); the limiter's token bucket and cookie never influence the store. -/
 structure Lim where
-  keys : List Nat
+  ents : List (Nat × Nat)
   maxSize : Nat
 
 namespace Lim
-/-- `LimiterStore.Get(key)` -/
-def get (s : Lim) (k : Nat) (victim : Option Nat) : Lim :=
-  if k ∈ s.keys then s else
-  let keys1 := if s.keys.length ≥ s.maxSize then
-      match victim with
-      | some w => s.keys.erase w
-      | none => s.keys
-    else s.keys
-  { s with keys := k :: keys1 }
+
+def keys (s : Lim) : List Nat := s.ents.map (·.1)
+
+/-- the scan of `evictOne` over a map of at most 1000 entries: the entry with
+the smallest `lastSeen` (`seen.Before(oldestTime)` is strict: the first one
+met wins a tie). -/
+def oldest : List (Nat × Nat) → Option (Nat × Nat)
+  | [] => none
+  | e :: t =>
+    match oldest t with
+    | none => some e
+    | some o => if o.2 < e.2 then some o else some e
+
+/-- `delete(s.limiters, w)` -/
+def remove (s : Lim) (w : Nat) : Lim := { s with ents := s.ents.filter (fun e => e.1 != w) }
+
+/-- `evictOne`.  Above 1000 entries the loop breaks after its first iteration:
+the victim is the first key the map iteration yields (`first`, free);
+otherwise it is the least recently seen entry. -/
+def evictOne (s : Lim) (first : Option Nat) : Lim :=
+  if s.ents.length > 1000 then
+    match first with
+    | some w => s.remove w
+    | none => s
+  else
+    match oldest s.ents with
+    | some o => s.remove o.1
+    | none => s
+
+/-- `LimiterStore.Get(key)` at time `now`: a hit refreshes `lastSeen`; a miss
+trims the store first (if `len >= maxSize`) and then inserts. -/
+def get (s : Lim) (k now : Nat) (first : Option Nat) : Lim :=
+  if k ∈ s.keys then
+    { s with ents := s.ents.map (fun e => if e.1 = k then (k, now) else e) }
+  else
+    let s1 := if s.ents.length ≥ s.maxSize then s.evictOne first else s
+    { s1 with ents := (k, now) :: s1.ents }
+
+/-- `Cleanup(olderThan)` with `cutoff = now - olderThan`: drops entries seen before the cutoff. -/
+def cleanup (s : Lim) (cutoff : Nat) : Lim := { s with ents := s.ents.filter (fun e => !(e.2 < cutoff)) }
+
 end Lim
 
 /-! ### the real mixers (used only by the driver) -/
